@@ -47,8 +47,34 @@ def val(le):
 
 
 def curve_from_probe(e):
-    return Curve(e["curve"], val(e["p"]), val(e["n"]["d"]), val(e["h"]["d"]), e["endom"], e["add"],
-                 e["fpb"], e["bnbits"], e["wd"], e["dep"], e["dgb"])
+    cv = Curve(e["curve"], val(e["p"]), val(e["n"]["d"]), val(e["h"]["d"]), e["endom"], e["add"],
+               e["fpb"], e["bnbits"], e["wd"], e["dep"], e["dgb"])
+    cv.glv = [val(e[k]["d"]) for k in ("v10", "v20") if k in e]
+    return cv
+
+
+def glv_corners(cv, rng, per=2):
+    """Scalars on the rounding boundaries of the two-dimensional decomposition: b_i = round(k*|v_i0| / 2^(bits+1))
+    is computed as a truncating shift plus the rounding bit, so choose k with floor(..) ending in an all-ones digit
+    and the rounding bit set (the +1 ripples through a whole digit), its neighbours, and exact ties."""
+    out = set()
+    bits = cv.n.bit_length()
+    D = 1 << cv.dgb
+    for v in getattr(cv, "glv", []):
+        if v == 0:
+            continue
+        bmax = (cv.n * v) >> (bits + 1)                      # largest coefficient a scalar below n can give
+        js = []
+        if bmax >= D:
+            js = [1, 2, max(1, bmax // D - 1)] + [rng.randrange(1, max(2, bmax // D)) for _ in range(per)]
+        for j in js:
+            F = j * D                                        # floor part j*D - 1 (all-ones low digit), rounding bit 1
+            k = -((-(F * (1 << (bits + 1)) - (1 << bits))) // v)
+            out |= {k, k - 1, k + 1}
+        for t in [rng.randrange(1, max(2, bmax)) for _ in range(per)]:
+            k = -((-(t * (1 << (bits + 1)) + (1 << bits))) // v)   # just at / above a tie t + 1/2
+            out |= {k, k - 1}
+    return sorted(k for k in out if 0 < k < cv.n)
 
 
 def probe_cases(ids):
